@@ -202,11 +202,12 @@ deriving DecidableEq, Repr
     a non-negative offset is sent +1; on CONTINUE the returned offset is the
     sent one −1 and the run id is the reply's if it carries one; on FULLRESYNC
     the reply's id and offset, then the `$len` header gives the size. -/
+def wireOf (off : Int) : Int := if off ≥ 0 then off + 1 else off
+
 def sendPSync (src : Source) (id : Id) (off : Int) : PsyncRes :=
-  let wire := if off ≥ 0 then off + 1 else off
-  match admitPsync src id wire with
-  | .cont nid => ⟨id, wire, .cont nid, if nid ≠ [] then nid else id, wire - 1, false, 0⟩
-  | .full fid o => ⟨id, wire, .full fid o, fid, o, true, src.snapLen⟩
+  match admitPsync src id (wireOf off) with
+  | .cont nid => ⟨id, wireOf off, .cont nid, if nid ≠ [] then nid else id, wireOf off - 1, false, 0⟩
+  | .full fid o => ⟨id, wireOf off, .full fid o, fid, o, true, src.snapLen⟩
 
 structure Meta where
   loc0 : SP               -- channel.StartPoint(inputIds)
@@ -221,42 +222,53 @@ structure Meta where
   cache : Cache           -- cache after DelRunId / SetRunId
 deriving DecidableEq, Repr
 
-/-- syncer/input.go:191 `syncMeta`. `sp` is `output.StartPoint(inputIds)`. -/
-def syncMeta (src : Source) (sp : SP) (c : Cache) : Meta :=
+structure Decision where
+  branch : Nat            -- which arm (1a,1b,2,3a,3b,4 ↦ 1..6)
+  ps : PsyncRes           -- result of pSync
+  clearLocal : Bool
+  loc : SP                -- locSp before the common tail
+  outOff : Int            -- outSp.Offset before the common tail
+deriving DecidableEq, Repr
+
+/-- syncer/input.go:218-280: the decision table of `syncMeta`.
+    `sp` is `output.StartPoint(inputIds)`. -/
+def decision (src : Source) (sp : SP) (c : Cache) : Decision :=
   let ids := [src.id1, src.id2]
   let loc0 := c.startPoint ids
-  let outIn := ids.contains sp.runId
-  let locIn := ids.contains loc0.runId
-  -- (branch, psync result, clearLocal, locSp, outSp.Offset, rdbSize)
-  let (br, ps, clear, loc, outOff) : Nat × PsyncRes × Bool × SP × Int :=
-    if outIn && locIn then
-      if c.isValidOffset loc0.runId sp.offset then
-        (1, sendPSync src loc0.runId loc0.offset, false, loc0, sp.offset)
-      else
-        let ps := sendPSync src sp.runId sp.offset
-        (2, ps, true, if ps.full then loc0 else ⟨ps.runId, sp.offset⟩, sp.offset)
-    else if outIn then
-      let ps := sendPSync src sp.runId sp.offset
-      (3, ps, true, if ps.full then loc0 else ⟨ps.runId, sp.offset⟩, sp.offset)
-    else if locIn && sp.isInitial then
-      let (rl, rs) := c.getRdb loc0.runId
-      if rl ≠ -1 ∧ rs ≠ -1 then
-        let ps := sendPSync src loc0.runId loc0.offset
-        if ps.full then (4, ps, false, loc0, sp.offset)
-        else (4, { ps with rdbSize := rs }, false, ⟨loc0.runId, (c.getOffsetRange loc0.runId).2⟩, rl - rs)
-      else
-        (5, sendPSync src qId (-1), false, loc0, sp.offset)
+  if ids.contains sp.runId && ids.contains loc0.runId then
+    if c.isValidOffset loc0.runId sp.offset then
+      ⟨1, sendPSync src loc0.runId loc0.offset, false, loc0, sp.offset⟩
     else
-      (6, sendPSync src qId (-1), false, loc0, sp.offset)
-  -- correct run id
-  let rid := if ps.full then ps.runId else src.id1
-  let del := ps.full || clear
+      let ps := sendPSync src sp.runId sp.offset
+      ⟨2, ps, true, if ps.full then loc0 else ⟨ps.runId, sp.offset⟩, sp.offset⟩
+  else if ids.contains sp.runId then
+    let ps := sendPSync src sp.runId sp.offset
+    ⟨3, ps, true, if ps.full then loc0 else ⟨ps.runId, sp.offset⟩, sp.offset⟩
+  else if ids.contains loc0.runId && sp.isInitial then
+    if (c.getRdb loc0.runId).1 ≠ -1 ∧ (c.getRdb loc0.runId).2 ≠ -1 then
+      let ps := sendPSync src loc0.runId loc0.offset
+      if ps.full then ⟨4, ps, false, loc0, sp.offset⟩
+      else ⟨4, { ps with rdbSize := (c.getRdb loc0.runId).2 }, false,
+            ⟨loc0.runId, (c.getOffsetRange loc0.runId).2⟩, (c.getRdb loc0.runId).1 - (c.getRdb loc0.runId).2⟩
+    else
+      ⟨5, sendPSync src qId (-1), false, loc0, sp.offset⟩
+  else
+    ⟨6, sendPSync src qId (-1), false, loc0, sp.offset⟩
+
+/-- syncer/input.go:191 `syncMeta`: decision, then "correct run id",
+    `DelRunId` when full or clearLocal, `SetRunId` on channel and output, and the
+    returned positions. -/
+def syncMeta (src : Source) (sp : SP) (c : Cache) : Meta :=
+  let dc := decision src sp c
+  let rid := if dc.ps.full then dc.ps.runId else src.id1
+  let del := dc.ps.full || dc.clearLocal
   let c1 := if del then c.delRunId c.runId else c
   let c2 := c1.setRunId rid
-  let locOff := if ps.full then ps.off else loc.offset
-  let outOff' := if ps.full then ps.off - ps.rdbSize else outOff
-  { loc0 := loc0, branch := br, ps := ps, clearLocal := clear, runId := rid, deleted := del,
-    locSp := ⟨rid, locOff⟩, outSp := ⟨rid, outOff'⟩, rdbSize := ps.rdbSize, cache := c2 }
+  let locOff := if dc.ps.full then dc.ps.off else dc.loc.offset
+  let outOff := if dc.ps.full then dc.ps.off - dc.ps.rdbSize else dc.outOff
+  { loc0 := c.startPoint [src.id1, src.id2], branch := dc.branch, ps := dc.ps, clearLocal := dc.clearLocal,
+    runId := rid, deleted := del, locSp := ⟨rid, locOff⟩, outSp := ⟨rid, outOff⟩,
+    rdbSize := dc.ps.rdbSize, cache := c2 }
 
 /-! ## 4. Writer / reader start (`syncData`, `readChannel`) -/
 
@@ -385,11 +397,12 @@ structure CacheWF (c : Cache) : Prop where
     | some (l, r) => 0 ≤ l ∧ l ≤ r ∧ r ≤ maxInt64      -- offsets are int64
     | none => True
   rdb_ok : match c.rdb with
-    | some (left, size) => 0 ≤ left ∧ 0 < size
+    | some (left, size) => 0 ≤ left ∧ 0 < size ∧ left ≤ maxInt64
     | none => True
   contig : match c.rdb, c.aof with
     | some (left, _), some (l, _) => l = left          -- the log starts at the snapshot's offset
     | _, _ => True
+  label : (c.runId = [] ∨ c.runId = qId) → c.rdb = none ∧ c.aof = none   -- data only under a real id
 
 /-- what C05/C08 provide: the bytes held under `runId` are `hist runId`, and the
     snapshot held is a snapshot at `left` of a history agreeing with `runId`'s
